@@ -186,7 +186,11 @@ func inCampaign(r *ev.Run, prop string) {
 		go func(ru *inRun) {
 			defer wg.Done()
 			defer func() { <-sem }()
+			t1 := time.Now()
 			ru.res = brk.RunIn(ru.sched, ru.opts)
+			if d := time.Since(t1); d > time.Second && os.Getenv("VERIF_SLOW") != "" {
+				fmt.Printf("SLOW %v %+v %v\n", d, ru.opts, ru.sched)
+			}
 		}(ru)
 	}
 	wg.Wait()
